@@ -397,7 +397,9 @@ impl Value {
             Self::Float(v) => {
                 // IEEE 754 float bit encoding with sign handling for correct ordering
                 let bits = v.to_bits();
-                let sortable = if *v >= 0.0 {
+                // Decide by the sign BIT, not by `>= 0.0`: -0.0 and NaN must take the arm that
+                // `from_sortable_key` inverts, or the key does not decode back to the value.
+                let sortable = if bits & 0x8000_0000_0000_0000 == 0 {
                     bits ^ 0x8000_0000_0000_0000 // Flip sign bit for positive
                 } else {
                     !bits // Flip all bits for negative
